@@ -18,24 +18,81 @@ POSITIVE: list[tuple[str, str, str]] = [
 ]
 
 
+def _dict_items(d: ast.expr) -> dict[str, ast.expr] | None:
+    """key -> value of a dictionary written out with constant text keys (`{'a': x}` or `dict(a=x)`); None for anything else"""
+    if isinstance(d, ast.Call) and isinstance(d.func, ast.Name) and d.func.id == 'dict' and all(x.arg for x in d.keywords):
+        out: dict[str, ast.expr] = {}
+        if len(d.args) == 1:
+            first = _dict_items(d.args[0])
+            if first is None:
+                return None
+            out.update(first)
+        elif d.args:
+            return None
+        out.update({x.arg: x.value for x in d.keywords})
+        return out
+    if isinstance(d, ast.Dict) and all(isinstance(x, ast.Constant) and isinstance(x.value, str) for x in d.keys):
+        return {x.value: v for x, v in zip(d.keys, d.values)}
+    return None
+
+
+def _built_dict(fn: ast.FunctionDef, name: str, call: ast.Call) -> dict[str, ast.expr] | None:
+    """what the local `name` holds where `call` stands, when it is a dictionary written out and then changed by statements the rule can replay:
+    `name = {...}` followed, in the same straight run of statements (the body of the function), by `name.update(k=v)`, `name.update({...})`,
+    `name['k'] = v`.  None when anything else touches the local before the call."""
+    body = fn.body
+    at = next((i for i, st in enumerate(body) if any(x is call for x in ast.walk(st))), None)
+    if at is None:
+        return None
+    cur: dict[str, ast.expr] | None = None
+    for st in body[:at]:
+        mentions = [x for x in ast.walk(st) if isinstance(x, ast.Name) and x.id == name]
+        if not mentions:
+            continue
+        if isinstance(st, (ast.Assign, ast.AnnAssign)) and st.value is not None:
+            tg = st.targets[0] if isinstance(st, ast.Assign) and len(st.targets) == 1 else getattr(st, 'target', None)
+            inner = [x for x in ast.walk(st.value) if isinstance(x, ast.Name) and x.id == name]
+            if isinstance(tg, ast.Name) and tg.id == name and not inner:
+                cur = _dict_items(inline_locals(fn, st.value))
+                if cur is None:
+                    return None
+                continue
+            if (cur is not None and isinstance(tg, ast.Subscript) and isinstance(tg.value, ast.Name) and tg.value.id == name and isinstance(tg.slice, ast.Constant)
+                    and isinstance(tg.slice.value, str) and not inner):
+                cur[tg.slice.value] = st.value
+                continue
+            return None
+        if (cur is not None and isinstance(st, ast.Expr) and isinstance(st.value, ast.Call) and isinstance(st.value.func, ast.Attribute) and st.value.func.attr == 'update'
+                and isinstance(st.value.func.value, ast.Name) and st.value.func.value.id == name and len(mentions) == 1):
+            more = _dict_items(ast.Call(func=ast.Name(id='dict', ctx=ast.Load()), args=[inline_locals(fn, a_) for a_ in st.value.args], keywords=st.value.keywords))
+            if more is None:
+                return None
+            cur.update(more)
+            continue
+        return None
+    # (nothing in the statement of the call itself may change it before it is read: only the read is allowed there)
+    if sum(1 for x in ast.walk(body[at]) if isinstance(x, ast.Name) and x.id == name) != 1:
+        return None
+    return cur
+
+
 def _flags(fn: ast.FunctionDef, call: ast.Call) -> tuple[dict[str, str], bool]:
     """(parameter -> argument text, complete): the named arguments of a call, those given as `**d` included when d is (a local holding) a dictionary
-    written out with constant keys.  complete is False when some `**` or `*` argument could not be read: a parameter that is not in the dictionary may
-    then have been given all the same"""
+    written out with constant keys, changed or not afterwards by `d.update(k=v)` / `d['k'] = v`.  complete is False when some `**` or `*` argument
+    could not be read: a parameter that is not in the dictionary may then have been given all the same"""
     out = named_args(call)
     complete = not any(isinstance(a, ast.Starred) for a in call.args)
     for k in call.keywords:
         if k.arg is not None:
             continue
-        d = inline_locals(fn, k.value)
-        if isinstance(d, ast.Call) and isinstance(d.func, ast.Name) and d.func.id == 'dict' and not d.args and all(x.arg for x in d.keywords):
-            for x in d.keywords:
-                out.setdefault(x.arg, unparse(x.value))
-        elif isinstance(d, ast.Dict) and all(isinstance(x, ast.Constant) and isinstance(x.value, str) for x in d.keys):
-            for x, v in zip(d.keys, d.values):
-                out.setdefault(x.value, unparse(v))
-        else:
+        d = _dict_items(inline_locals(fn, k.value))
+        if d is None and isinstance(k.value, ast.Name):
+            d = _built_dict(fn, k.value.id, call)
+        if d is None:
             complete = False
+            continue
+        for x, v in d.items():
+            out.setdefault(x, unparse(inline_locals(fn, v)))
     return out, complete
 
 
@@ -139,11 +196,41 @@ def run(ctx: Ctx) -> None:
             at_r, at_e = cfg.node_of(rr[0]), cfg.node_of(ev[0])
             dr = {d.node for d in cfg.reaching(at_r, xstar)}
             de = {d.node for d in cfg.reaching(at_e, xstar)}
-            want = {cfg.node_of(unp[0])}
-            oks = dr == want and de == want
-            other = sorted(getattr(cfg.stmt.get(n), 'lineno', 0) for n in (dr | de) - want)
+            want = cfg.node_of(unp[0])
+
+            def origin(n_, depth=4):
+                """'same': the definition at node n_ is the unpacking of the main optimisation, or re-binds the name to the value it had (`x = cast(T, x)`,
+                `x = np.asarray(x)`, `x = x.copy()`); 'derived': computed from the result of the optimisation in a way the rule does not read;
+                'other': another point"""
+                if n_ == want:
+                    return 'same'
+                st_ = cfg.stmt.get(n_)
+                tg_ = (st_.targets[0] if isinstance(st_, ast.Assign) and len(st_.targets) == 1 else st_.target if isinstance(st_, ast.AnnAssign) else None)
+                if not (isinstance(tg_, ast.Name) and tg_.id == xstar) or getattr(st_, 'value', None) is None or depth == 0:
+                    return 'other'
+                v_ = st_.value
+                while True:
+                    if isinstance(v_, ast.Call) and call_name(v_) == 'cast' and len(v_.args) == 2 and not v_.keywords:
+                        v_ = v_.args[1]
+                    elif isinstance(v_, ast.Call) and unparse(v_.func) in ('np.asarray', 'np.array', 'numpy.asarray', 'numpy.array', 'np.copy', 'numpy.copy', 'copy.copy', 'copy.deepcopy', 'np.asarray_chkfinite') and len(v_.args) == 1 and not v_.keywords:
+                        v_ = v_.args[0]
+                    elif isinstance(v_, ast.Call) and isinstance(v_.func, ast.Attribute) and v_.func.attr == 'copy' and not v_.args and not v_.keywords:
+                        v_ = v_.func.value
+                    else:
+                        break
+                if isinstance(v_, ast.Name) and v_.id == xstar:
+                    before = {origin(d_.node, depth - 1) for d_ in cfg.reaching(n_, xstar)}
+                    return 'same' if before == {'same'} else ('other' if 'other' in before or not before else 'derived')
+                return 'derived' if {x_.id for x_ in ast.walk(v_) if isinstance(x_, ast.Name)} & result_names else 'other'
+
+            kinds = {origin(n_) for n_ in dr | de}
+            # the evaluation and RawResults must see the same definition(s) of the point; a definition made in between, or one that is another point
+            # than the result of the optimisation, is the contradiction; a point computed from the result in a way the rule does not read leaves it open
+            oks = True if (dr == de and kinds == {'same'}) else (None if (dr == de and dr and 'other' not in kinds) else False)
+            other = sorted(getattr(cfg.stmt.get(n), 'lineno', 0) for n in (dr | de) if origin(n) != 'same')
             ctx.add('C07.R2', f'BIOGEME.{mname}:same-point', oks, (e.file, rr[0].lineno),
                     f'the {xstar} handed to RawResults is the {xstar} of the final evaluation (defined once, by the main optimisation)' if oks
+                    else f'{xstar} is computed again from the result of the optimisation before the final evaluation (line {", ".join(map(str, other))}), in a way the rule does not read: whether it is still the point returned by optimize is not decided' if oks is None
                     else f'{xstar} is assigned again between the main optimisation and RawResults{(" (line " + ", ".join(map(str, other)) + ")") if other else ""}: the reported point is not the point at which the likelihood and its derivatives were evaluated', 'same-point')
         if okr and ev:
             asg_ev = next((n for n in walk_no_nested(e.node) if isinstance(n, ast.Assign) and n.value is ev[0]), None)
@@ -199,8 +286,18 @@ def run(ctx: Ctx) -> None:
         def _is_bounds(a_):
             return unparse(inline_locals(g.node, a_)) in ('bounds', 'Bounds(bounds)')
 
-        uses = [c for c in fw if any(_is_bounds(a) for a in c.args if not isinstance(a, ast.Starred)) or any(_is_bounds(kx.value) for kx in c.keywords if kx.arg)]
-        warn = [n for n in walk_no_nested(g.node) if isinstance(n, ast.For) and unparse(n.iter) == 'bounds' and 'will be ignored' in unparse(n)]
+        def _is_start(a_):
+            return any(isinstance(x_, ast.Name) and x_.id == 'init_betas' for x_ in ast.walk(inline_locals(g.node, a_)))
+
+        def _given(c_):
+            return [a_ for a_ in c_.args if not isinstance(a_, ast.Starred)] + [kx.value for kx in c_.keywords if kx.arg]
+
+        # (the call that receives the bounds must be the one that receives the starting point: the backend, or the sibling wrapper; `len(bounds)` is not)
+        uses = [c for c in fw if any(_is_bounds(a) for a in _given(c)) and any(_is_start(a) for a in _given(c))]
+        # (the warning must be issued, not only worded)
+        warn = [n for n in walk_no_nested(g.node) if isinstance(n, ast.For) and unparse(n.iter) == 'bounds'
+                and any(isinstance(c, ast.Call) and unparse(c.func) in ('logger.warning', 'logger.warn', 'logging.warning', 'warnings.warn', 'logger.error', 'logger.critical') and c.args
+                        and 'will be ignored' in unparse(inline_locals(g.node, c.args[0])) for c in ast.walk(n))]
         ok = bool(uses) != bool(warn) or bool(uses)
         ctx.add('C07.R3', f'optimization.{g.name}:bounds', ok and (bool(uses) or bool(warn)), g,
                 f'{name}: bounds ' + ('are forwarded to the backend' if uses else 'are ignored with a warning') if (uses or warn) else f'{name}: bounds are neither forwarded nor reported as ignored', 'fwd' if uses else 'warn' if warn else 'dropped')
